@@ -16,7 +16,8 @@ RULE = ("runs with logging.save_diagnostic_info over radii (rhobeg/rhoend ratios
         "delta <= 1e10, rho non-increasing within a run (unless growing.reset_rho), fk non-increasing (deterministic), nf/nx/nruns "
         "non-decreasing and bounded by the final values, 2 <= npt <= allowed maximum; every row must coincide with the live "
         "controller state (rho, delta, nf, nx) captured by the per-iteration hook. Non-trivial = table in which rho was reduced at "
-        "least once or a restart occurred; distinct by configuration hash")
+        "least once or a restart occurred; distinct by configuration hash"
+        ' Second session: radius-cap family (rhobeg within a few doublings of 1e10); a quarter of the runs un-logged; seldom-used parameter keys.')
 ASSUMPTIONS = ["delta <= 1e10 is not claimed for regularised runs (that branch divides by tau and has no cap)",
                "allowed maximum of npt = max(npt, restarts.max_npt when restarts.increase_npt is on)"]
 N = {"quick": 1100, "thorough": 22000}
